@@ -129,7 +129,9 @@ def run(tape: Tape) -> Outcome:
         a = _worker({"corpus": corpus, "order1": ids, "order2": ids, "dump": [cid]}, "0")["dumped"][str(cid)]
         b = _worker({"corpus": corpus, "order1": o1, "order2": o2, "unrelated": unrel, "dump": [cid]}, hs)["dumped"][str(cid)]
         diff = list(difflib.unified_diff(a.splitlines(), b.splitlines(), "PYTHONHASHSEED=0", f"PYTHONHASHSEED={hs}", lineterm="", n=1))
-        kind = "hash-seed" if (a != b) else "process-history"
+        # same process history under hash seed 0: if that already gives the deviating source, history is the cause
+        c = _worker({"corpus": corpus, "order1": o1, "order2": o2, "unrelated": unrel, "dump": [cid]}, "0")
+        kind = "process-history" if (c["dumped"][str(cid)] == b or c["pass1"][str(cid)] != c["pass2"][str(cid)]) else "hash-seed"
         out.violate(("generated-source-differs", kind), template=corpus[cid], hashseed=hs, compile_pass=pname, diff=diff[:60])
         return out
     out.evals = 2 * len(corpus) * len(seeds)
